@@ -1833,6 +1833,12 @@ pub fn c10(tier: &str, flavor: Flavor) -> Spec {
         let a = vec![Op::GetMaxCost { k: 1 }, ins(2, 1, 0), Op::Wait, Op::Get { k: 2 }];
         jobs.push(job(conc(&Cfg::default(), flavor, &[ins(1, 1, 0), ins(257, 1, 1000)], vec![a, b.clone()]), &[2], "c10-guard-into-policy"));
     }
+    // a client keeps a lookup guard on a shard while (virtual) time passes - 0.6 s, long against any
+    // internal time-out - and another client's insert into that shard waits to be applied: the
+    // barrier behind it returns only once the insert is applied, however long that takes
+    for a in [vec![ins(257, 1, 0), Op::Wait, Op::Get { k: 257 }], vec![ins(257, 1, 0), ins(2, 1, 0), Op::Wait, Op::Get { k: 257 }, Op::Get { k: 2 }]] {
+        jobs.push(job(conc(&Cfg::default(), flavor, &[ins(1, 1, 0)], vec![a.clone(), vec![Op::GetHold { k: 1, ms: 600 }]]), &[2], "c10-guard-held-for-long"));
+    }
     // waits with nothing pending, racing close/clear directly
     for threads in [
         vec![vec![Op::Wait], vec![Op::Close]],
@@ -1862,7 +1868,7 @@ pub fn c10(tier: &str, flavor: Flavor) -> Spec {
         oracle: o_c10,
         interesting: |_, t| t.recs.iter().any(|r| r.op == Op::Wait && r.res == Res::Unit),
         rule: format!(
-            "client A: every history of <= {} operations over {{I(1), I(2), R(1), R(2), P(1), W}}, then wait(), then (without settling) G(1), G(2) and a facade snapshot; other clients: none | another waiter | clear | close | clear;close | close + a second waiter | two more waiters; insert buffer sizes 1, 2, 8; all schedules up to preemption bound {} and all select choices. Barrier oracle: after an Ok wait A's inserts are retrievable and charged, its removes are gone (a concurrent clear may discard inserts); termination: a wait() that never returns is a blocked-forever task = deadlock report; plus the families c10-same-key, c10-shard-held, c10-ttl (TTL of Duration::MAX; a key re-inserted after its TTL ran out, before the sweep) c10-own-clear (the client's own clear() with work buffered, then insert / remove and the barrier), c10-ttl-refresh-vs-clear and c10-guard-into-policy (a client holding a lookup guard calls max_cost() while the sweep of that shard is due); non-trivial = some wait() returned Ok",
+            "client A: every history of <= {} operations over {{I(1), I(2), R(1), R(2), P(1), W}}, then wait(), then (without settling) G(1), G(2) and a facade snapshot; other clients: none | another waiter | clear | close | clear;close | close + a second waiter | two more waiters; insert buffer sizes 1, 2, 8; all schedules up to preemption bound {} and all select choices. Barrier oracle: after an Ok wait A's inserts are retrievable and charged, its removes are gone (a concurrent clear may discard inserts); termination: a wait() that never returns is a blocked-forever task = deadlock report; plus the families c10-same-key, c10-shard-held, c10-ttl (TTL of Duration::MAX; a key re-inserted after its TTL ran out, before the sweep) c10-own-clear (the client's own clear() with work buffered, then insert / remove and the barrier), c10-ttl-refresh-vs-clear, c10-guard-held-for-long (a lookup guard kept while 0.6 s pass and another client's insert into that shard waits) and c10-guard-into-policy (a client holding a lookup guard calls max_cost() while the sweep of that shard is due); non-trivial = some wait() returned Ok",
             if quick { 2 } else { 3 },
             if quick { 2 } else { 3 }
         ),
@@ -2830,6 +2836,19 @@ pub fn c20(tier: &str, flavor: Flavor) -> Spec {
                 p.post = vec![Op::Settle, Op::Wait, ins(7, 1, 0), Op::Settle];
                 jobs.push(job(p, &[2], "c20-ttl-refresh-vs-clear"));
             }
+        }
+    }
+    // a client that holds a get_mut guard inserts other keys: the processor needs the guarded shard
+    // (to evict its resident) and stalls, the one- or two-slot insert buffer fills up - every insert
+    // still returns (accepted or dropped), and after the guard is gone the cache works
+    for buffer_size in [1usize, 2] {
+        for n in [3u64, 5] {
+            let cfg = Cfg { max_cost: 1, buffer_size, ..Cfg::default() };
+            let mut p = conc(&cfg, flavor, &[ins(1, 1, 0)], vec![vec![Op::MutHoldIns { k: 1, n }]]);
+            p.post = vec![Op::Settle, Op::Wait, ins(7, 1, 0), Op::Settle];
+            // (first in the queue: a change that makes the big product slower must not push this
+            // small program beyond the time cap)
+            jobs.insert(0, job(p, &[2], "c20-writes-under-a-guard"));
         }
     }
     // zero parameters are rejected, in whatever order the builder was fed
